@@ -236,6 +236,20 @@ pub struct Gen<'r> {
 
 const WEIRD: &[&str] = &["a b", "x-y", "p/q", "a b-c/d", " lead", "trail ", "é-ü", "__"];
 
+/// `name` with one of its separators (' ', '-', '/', '_') exchanged for another one; None if it has none
+pub fn sep_variant(name: &str, h: u64) -> Option<String> {
+    const SEPS: [char; 4] = [' ', '-', '/', '_'];
+    let pos: Vec<usize> = name.char_indices().filter(|(_, c)| SEPS.contains(c)).map(|(i, _)| i).collect();
+    if pos.is_empty() { return None; }
+    let i = pos[(h % pos.len() as u64) as usize];
+    let old = name[i..].chars().next().unwrap();
+    let mut k = ((h >> 8) % 4) as usize;
+    if SEPS[k] == old { k = (k + 1) % 4; }
+    let mut out = String::new();
+    out.push_str(&name[..i]); out.push(SEPS[k]); out.push_str(&name[i + old.len_utf8()..]);
+    Some(out)
+}
+
 impl<'r> Gen<'r> {
     fn tag(&mut self) -> u32 {
         self.next_tag += 1;
@@ -277,6 +291,12 @@ impl<'r> Gen<'r> {
             } else {
                 format!("s{}", tag)
             };
+            // now and then a name that differs from an earlier one only in a separator (' ', '-', '/', '_'): different names
+            // although they print alike
+            if p.p_weird_name > 0 && !names.is_empty() && self.rng.below(100) < 12 {
+                let base = names[self.rng.below(names.len() as u64) as usize].clone();
+                if let Some(v) = sep_variant(&base, self.rng.next()) { if !names.contains(&v) { name = v; } }
+            }
             // dependencies
             let mut deps = Vec::new();
             if !names.is_empty() && self.rng.below(100) < p.p_dep {
@@ -293,7 +313,11 @@ impl<'r> Gen<'r> {
             }
             if p.malformed && self.rng.below(100) < 6 {
                 let pos = self.rng.below(deps.len() as u64 + 1) as usize;
-                let bad = match self.rng.below(3) { 0 => String::new(), 1 => format!("nope{}", tag), _ => format!("s{}", tag + 1000) };
+                let bad = match self.rng.below(4) {
+                    0 => String::new(), 1 => format!("nope{}", tag), 2 => format!("s{}", tag + 1000),
+                    // a registered name with one separator exchanged (not registered itself)
+                    _ => names.iter().rev().find_map(|n| sep_variant(n, tag as u64)).filter(|v| !names.contains(v)).unwrap_or_else(|| format!("nope{}", tag)),
+                };
                 deps.insert(pos, bad);
             }
             if p.malformed && !names.is_empty() && self.rng.below(100) < 6 {
